@@ -247,6 +247,8 @@ def run(ctx):
     # and apply (C20.e; the CLI is one of the public ways to request a state)
     from . import c20
     ctx.import_rules(c20, "t20", only=("C20.e",))
+    from ._chains import transparent_deprecated
+    transparent_deprecated(ctx, "C10.f")          # (the old setting names are the same setters)
     ctx.require_min("body_bytes", 24)
     ctx.require_min("regions", 4)
     ctx.require_min("fields", 16)
